@@ -138,7 +138,7 @@ func deepArr(n int) *V {
 var DeepLevels = 1000
 
 // Kinds lists every mutation kind.
-var Kinds = []string{"allof-cycle-inline", "allof-cycle-direct", "path-template-error", "delete", "null", "retype-scalar", "retype-map", "retype-seq", "num-string", "duplicate-key", "rename-collide", "break-escape", "dangling-ref", "self-ref", "huge-number", "negative-number", "big-integer", "deep-nesting", "deep-array", "empty-map", "empty-string", "long-string",
+var Kinds = []string{"allof-cycle-inline", "allof-cycle-direct", "self-array", "self-array-of-array", "self-object", "self-map", "self-sum", "path-template-error", "delete", "null", "retype-scalar", "retype-map", "retype-seq", "num-string", "duplicate-key", "rename-collide", "break-escape", "dangling-ref", "self-ref", "huge-number", "negative-number", "big-integer", "deep-nesting", "deep-array", "empty-map", "empty-string", "long-string",
 	// response keys outside the forms 100..599, 1XX..5XX, default
 	"response-code:0XX", "response-code:6XX", "response-code:9XX", "response-code:XXX", "response-code:2xx", "response-code:99", "response-code:1000", "response-code:2X", "response-code:٢٠٠", "response-code:-1", "response-code:2XXX", "response-code:Default"}
 
@@ -240,6 +240,22 @@ func At(root *V, p doctree.Path, kind string) *Mutant {
 			} else {
 				txt = `{"allOf":[{"$ref":"` + self + `"},{"type":"object","properties":{"zz2":{"type":"integer"}}}]}`
 			}
+			if nv, err := jsonv.Parse([]byte(txt)); err == nil {
+				ok = setAt(t, p, nv)
+			}
+		}
+	case "self-array", "self-array-of-array", "self-object", "self-map", "self-sum":
+		// a component schema that contains itself as array item, required property, map value or sum member: whatever
+		// uses the component (parameter, header, form field, body) now meets a recursive type
+		if orig.Kind == jsonv.Object && len(p) == 3 && p[0] == "components" && p[1] == "schemas" {
+			self := `{"$ref":"#/components/schemas/` + strings.ReplaceAll(strings.ReplaceAll(p[2], "~", "~0"), "/", "~1") + `"}`
+			txt := map[string]string{
+				"self-array":          `{"type":"array","items":` + self + `}`,
+				"self-array-of-array": `{"type":"array","items":{"type":"array","items":` + self + `}}`,
+				"self-object":         `{"type":"object","required":["zzself"],"properties":{"zzself":` + self + `,"zzname":{"type":"string"}}}`,
+				"self-map":            `{"type":"object","additionalProperties":` + self + `}`,
+				"self-sum":            `{"oneOf":[{"type":"string"},{"type":"array","items":` + self + `}]}`,
+			}[kind]
 			if nv, err := jsonv.Parse([]byte(txt)); err == nil {
 				ok = setAt(t, p, nv)
 			}
